@@ -42,6 +42,9 @@ class Built:
         dsg = BasicDSG()
         for n in desc.nodes:
             dsg.add_node(self.node[n])
+        if getattr(desc, 'choices_first', False):
+            for c in desc.choices:
+                self.choice[c.cid] = dsg.add_selection_choice(c.cid, self.node[c.origin], [self.node[o] for o in c.options])
         dsg.add_edges([(self.node[u], self.node[v]) for u, v in desc.edges])
         for c in desc.conns:
             if c.parent is not None:
@@ -53,7 +56,8 @@ class Built:
             if m.parent is not None:
                 dsg.add_edge(self.node[m.parent], self.node[m.name])
         for c in desc.choices:
-            self.choice[c.cid] = dsg.add_selection_choice(c.cid, self.node[c.origin], [self.node[o] for o in c.options])
+            if c.cid not in self.choice:
+                self.choice[c.cid] = dsg.add_selection_choice(c.cid, self.node[c.origin], [self.node[o] for o in c.options])
         groups = {g.name: g for g in desc.groups}
 
         def conn_arg(names):
@@ -159,6 +163,20 @@ def family_sel(tier='quick'):
     # mutually exclusive sub-choices under different options
     out.append(_sel('exclusive-subchoices', ['A', 'P0', 'P1', 'Q0', 'Q1', 'R0', 'R1', 'R2'], [], ['A'],
                     [('C1', 'A', ['P0', 'P1']), ('C2', 'P0', ['Q0', 'Q1']), ('C3', 'P1', ['R0', 'R1', 'R2'])]))
+    # two nested derivation cycles sharing a node, with option nodes of two different choices on the cycles and a
+    # third choice below one of them (S stays in the instance through H -> M -> X -> S when C1 takes S_ALT)
+    for cf in (False, True):
+        out.append(_sel(f'nested-cycles-{int(cf)}',
+                        ['ST', 'N1', 'N2', 'S', 'S_ALT', 'H', 'H_ALT', 'M', 'X', 'Y', 'Z', 'P', 'Q'],
+                        [('ST', 'N1'), ('ST', 'N2'), ('S', 'H'), ('H', 'M'), ('M', 'X'), ('X', 'S'), ('M', 'Y'),
+                         ('Y', 'H'), ('S', 'Z')], ['ST'],
+                        [('C1', 'N1', ['S', 'S_ALT']), ('C2', 'N2', ['H', 'H_ALT']), ('C3', 'Z', ['P', 'Q'])],
+                        choices_first=cf))
+        # an option node that another branch also derives (directly / through a chain)
+        out.append(_sel(f'option-also-derived-{int(cf)}', ['X', 'P0', 'P1', 'Q0', 'Q1', 'I', 'R0', 'R1'],
+                        [('P0', 'I'), ('I', 'Q0')], ['X'],
+                        [('C1', 'X', ['P0', 'P1']), ('C2', 'X', ['Q0', 'Q1']), ('C3', 'Q0', ['R0', 'R1'])],
+                        choices_first=cf))
     # the documented example of docs/theory.md (16 nodes, 2 choices, 2 incompatibilities, 6 architectures)
     out.append(theory_example())
     if tier == 'thorough':
@@ -243,6 +261,20 @@ def family_inc(tier='quick'):
             pair = (tgt, src) if flip else (src, tgt)
             out.append(Desc(nodes, edges, ['X'], choices=ch, incompat=[pair],
                             label=f'inc-shared-derived-{tgt[0]}{src[0]}-{int(flip)}'))
+    # one end of the pair is both an option of a choice and derived from an option of another choice (through a chain);
+    # choice nodes created before / after the plain deriving edges (in-edge order of the shared node differs)
+    for cf in (False, True):
+        for third in (False, True):
+            nodes = ['X', 'B0', 'B1', 'E0', 'E1', 'I', 'L0', 'L1']
+            edges = [('E0', 'I'), ('I', 'L0')]
+            ch = [('C1', 'X', ['B0', 'B1']), ('C2', 'X', ['E0', 'E1']), ('C3', 'X', ['L0', 'L1'])]
+            if third:
+                ch = ch[:2]
+                nodes = [n for n in nodes if n != 'L1']
+                ch.append(('C3', 'E1', ['L0', 'L1b']))
+                nodes.append('L1b')
+            out.append(Desc(nodes, edges, ['X'], choices=ch, incompat=[('B1', 'L0')], choices_first=cf,
+                            label=f'inc-option-also-derived-{int(cf)}{int(third)}'))
     # incompatibility with a start node / between two permanent nodes (infeasible space) / option vs permanent
     out.append(Desc(['A', 'B', 'P0', 'P1'], [('A', 'B')], ['A'], choices=[('C1', 'A', ['P0', 'P1'])],
                     incompat=[('A', 'P0')], label='inc-start-vs-option'))
